@@ -679,7 +679,11 @@ def run(run):
     recursion(run, fx)
     looplimit(run, fx)
     advidx(run, fx)
-    from . import c03, c16
+    from . import c03, c16, c10
+    try:
+        c10.boxsize(run, fx)                     # the collision-box records are written within what was allocated for them (shared with C10)
+    except AnalysisBroken as ex:
+        run.broken('LOADERSIB', 'box records', str(ex))
     c03.freedslot(run, fx, 'FREEDSLOT')          # "never causes ... undefined behaviour": no use of a slot after it went back to the pool (shared with C03)
     c16.ownlocal(run, fx, None)                  # "or a leak": a failed gr_make_seg frees what it allocated (shared with C16)
     from . import c13
